@@ -170,3 +170,41 @@ func H07_ack_order() {
 	vrtObserve("order", ans)
 	vrtReach("C07.ack_order")
 }
+
+// H07many_filters: requests with a large number of filters (the property's
+// "N well above 4"), around the sizes at which the SUBACK's / UNSUBACK's and
+// the request's remaining-length fields grow to two bytes: one return code
+// per filter in request order, and every filter takes effect.
+func H07many_filters() {
+	topics.MaxQosAllowed = 2
+	b := vrtBroker("mockSuccess")
+	a, _ := b.connect(vrtConnectPkt([]byte("a"), true))
+	w, _ := b.connect(vrtConnectPkt([]byte("w"), true))
+	ns := []int{24, 25, 26, 125, 126, 127, 128, 200}
+	n := ns[vrtChoice("nfilters", len(ns))]
+	sub := &specPkt{Typ: specSUBSCRIBE, ID: 7}
+	unsub := &specPkt{Typ: specUNSUBSCRIBE, ID: 8}
+	var codes []byte
+	for i := 0; i < n; i++ {
+		f := []byte{'f', byte('0' + i/64), byte('0' + i%64)}
+		sub.Topics = append(sub.Topics, f)
+		sub.QoS = append(sub.QoS, byte(i%3))
+		codes = append(codes, byte(i%3))
+		unsub.Topics = append(unsub.Topics, f)
+	}
+	ans := vrtExchange(a, sub)
+	vrtAssert("C07.suback_many", vrtBytesEq(ans, specEncode(&specPkt{Typ: specSUBACK, ID: 7, Codes: codes})))
+	vrtAssert("C07.connection_stays_open", !a.isClosed())
+	pick := vrtChoice("which", 3)
+	idx := []int{0, n / 2, n - 1}[pick]
+	vrtExchange(w, &specPkt{Typ: specPUBLISH, Topic: sub.Topics[idx], Payload: []byte("m")})
+	got, ok := vrtParse(a.peerTake())
+	vrtAssert("C07.stream_wellformed", ok)
+	vrtAssert("C07.subscribed_after_suback", len(got) == 1)
+	ans = vrtExchange(a, unsub)
+	vrtAssert("C07.unsuback_many", vrtBytesEq(ans, specEncode(&specPkt{Typ: specUNSUBACK, ID: 8})))
+	vrtExchange(w, &specPkt{Typ: specPUBLISH, Topic: sub.Topics[idx], Payload: []byte("m")})
+	vrtAssert("C07.unsubscribed_after_unsuback", len(a.peerTake()) == 0)
+	vrtObserve("many", n)
+	vrtReach("C07.many_filters")
+}
